@@ -3,7 +3,7 @@
     every interpreted function, the OS thread an UNPINNED goroutine continues on; a goroutine that has called
     runtime.LockOSThread stays where it is. The kernel is the model of KernelState.v.) *)
 From Coq Require Import List NArith Bool String.
-From Seccomp Require Import Machine Raw Result KernelCheck KernelState Skeleton Loader LoaderProofs.
+From Seccomp Require Import Machine Raw Result KernelCheck KernelState Skeleton Loader LoaderProofs GatedProofs.
 From Gen Require Import GenSkeletons GenConsts.
 From Props Require Import LoaderInst.
 Import ListNotations.
@@ -64,6 +64,15 @@ Theorem C11_unprivileged_without_nnp_fails : forall supp, probe_ok supp -> foral
   hist supp st0 (pre ++ [HLoad tid pinned sched f]) = hist supp st0 pre.
 Proof. exact (fun supp Hs => unprivileged_without_nnp_fails kload supp kload_spec Hs). Qed.
 Print Assumptions C11_unprivileged_without_nnp_fails.
+
+(** On the kernel that filters the loader's own system calls ([kload_g]): when the filters already in force answer
+    prctl(2) with an error, a load that asks for the bit cannot set it - and then it must not install the filter without
+    it: LoadFilter returns an error, the kernel state is unchanged and seccomp(2) is not even called. (C11_unprivileged_can_load
+    above silently assumes that nothing intercepts the two calls: [open] in C09_gated_kernel_agrees_where_open.) *)
+Theorem C11_bit_refused_means_no_install : forall w f p, refuses (w_k w) SYS_prctl -> f_nnp f = true -> f_prog f = Ok p ->
+  snd (kload_g w f) = LErr /\ w_k (fst (kload_g w f)) = w_k w /\ w_log (fst (kload_g w f)) = w_log w.
+Proof. exact (load_refused_prctl kload_g kload_g_spec). Qed.
+Print Assumptions C11_bit_refused_means_no_install.
 
 (** Defect D8 (repaired in /repo by ad0fa2b), kept as a refutation: remove the LockOSThread / UnlockOSThread
     statements from the regenerated skeleton and the first theorem is false - there is a scheduler oracle,
